@@ -203,15 +203,14 @@ impl Mode {
     /// Convenience function to push a value onto the stack
     pub fn push_value(&self, block: &mut Block, value: Expression) -> Result<(), Error> {
         // the stack pointer moves by the size of the value pushed (2 for a 16-bit operand)
-        block.assign(
-            self.sp(),
-            Expr::sub(
-                self.sp().into(),
-                expr_const((value.bits() / 8) as u64, self.bits()),
-            )?,
-        );
+        let new_sp = Expr::sub(
+            self.sp().into(),
+            expr_const((value.bits() / 8) as u64, self.bits()),
+        )?;
 
-        block.store(self.sp().into(), value);
+        // store first: `push rsp` pushes the value the stack pointer had before the instruction
+        block.store(new_sp.clone(), value);
+        block.assign(self.sp(), new_sp);
         Ok(())
     }
 }
